@@ -120,3 +120,98 @@ func VerifC03ConcurrentFirstSamples() {
 	verifrt.Assert("c03.concurrent-first-samples.each-in-its-bucket", low == b2i(x <= 1)+b2i(y <= 1))
 	verifrt.Reach("c03.concurrent-first.end")
 }
+
+// VerifC03TwoKinds: a value histogram and a duration histogram of one scope tree, each with a
+// one-bound spec the solver chooses (it may make them collide in the tree's bucket cache, for
+// instance bound 0 for both kinds): each is reported as its own kind with its own bounds.
+func VerifC03TwoKinds() {
+	rec := &vReporter{}
+	root := newRootScope(ScopeOptions{Reporter: rec, OmitCardinalityMetrics: true, registryShardCount: 1}, 0)
+	vb := verifrt.Float64("bound")
+	verifrt.Assume(finite(vb))
+	db := verifrt.Int64("dbound")
+	x := verifrt.Float64("sample")
+	verifrt.Assume(finite(x))
+	d := verifrt.Int64("dsample")
+	first := verifrt.Choose("first-kind", 2)
+	var hv, hd Histogram
+	if first == 0 {
+		hv = root.Histogram("v", ValueBuckets{vb})
+		hd = root.SubScope("s").Histogram("d", DurationBuckets{time.Duration(db)})
+	} else {
+		hd = root.SubScope("s").Histogram("d", DurationBuckets{time.Duration(db)})
+		hv = root.Histogram("v", ValueBuckets{vb})
+	}
+	hv.RecordValue(x)
+	hd.RecordDuration(time.Duration(d))
+	root.reportRegistry()
+	nv, nd := int64(0), int64(0)
+	for _, c := range rec.calls {
+		switch c.name {
+		case "v":
+			verifrt.Assert("c03.two-kinds.value-histogram-reported-as-values", c.kind == "hv")
+			nv += c.i
+			if c.kind == "hv" && c.i != 0 {
+				verifrt.Assert("c03.two-kinds.value-sample-inside-its-bucket", verifrt.And(verifrt.Or(c.lo < x, fbits(c.lo) == fbits(-math.MaxFloat64)), x <= c.hi))
+				verifrt.Assert("c03.two-kinds.value-bound-from-its-own-spec", verifrt.Or(fbits(c.hi) == fbits(vb), fbits(c.hi) == fbits(math.MaxFloat64)))
+			}
+		case "s.d":
+			verifrt.Assert("c03.two-kinds.duration-histogram-reported-as-durations", c.kind == "hd")
+			nd += c.i
+			if c.kind == "hd" && c.i != 0 {
+				verifrt.Assert("c03.two-kinds.duration-sample-inside-its-bucket", verifrt.And(verifrt.Or(int64(c.dlo) < d, c.dlo == time.Duration(math.MinInt64)), d <= int64(c.dhi)))
+				verifrt.Assert("c03.two-kinds.duration-bound-from-its-own-spec", verifrt.Or(int64(c.dhi) == db, c.dhi == time.Duration(math.MaxInt64)))
+			}
+		}
+	}
+	verifrt.Assert("c03.two-kinds.each-sample-delivered-once", nv == 1 && nd == 1)
+	verifrt.Reach("c03.two-kinds.end")
+}
+
+// VerifC03TwoSamples: bucketing must not depend on what was recorded before.  Two symbolic
+// samples in a row on one histogram (2 symbolic strictly increasing finite bounds; values, and
+// durations), then one pass: every delivered bucket (lower, upper] holds exactly the samples
+// that lie in it, and both samples are delivered.
+func VerifC03TwoSamples() {
+	rec := &vReporter{}
+	root := newRootScope(ScopeOptions{Reporter: rec, OmitCardinalityMetrics: true, registryShardCount: 1}, 0)
+	if verifrt.Choose("durations", 2) == 0 {
+		b1, b2 := verifrt.Float64("bound"), verifrt.Float64("bound")
+		// (a bound equal to the value that stands for the open lower end would make the
+		// reference below ambiguous; that corner is covered by VerifC03Value)
+		verifrt.Assume(verifrt.And(verifrt.And(finite(b1), finite(b2)), verifrt.And(b1 < b2, b1 > -math.MaxFloat64)))
+		x, y := verifrt.Float64("sample"), verifrt.Float64("sample")
+		verifrt.Assume(verifrt.And(finite(x), finite(y)))
+		h := root.Histogram("h", ValueBuckets{b1, b2})
+		h.RecordValue(x)
+		h.RecordValue(y)
+		root.reportRegistry()
+		var total int64
+		for _, c := range rec.calls {
+			total += c.i
+			in := func(s float64) int64 {
+				return b2i(verifrt.And(verifrt.Or(c.lo < s, fbits(c.lo) == fbits(-math.MaxFloat64)), s <= c.hi))
+			}
+			verifrt.Assert("c03.two-samples.bucket-holds-exactly-the-samples-inside-it", c.i == in(x)+in(y))
+		}
+		verifrt.Assert("c03.two-samples.both-delivered", total == 2)
+	} else {
+		b1, b2 := verifrt.Int64("dbound"), verifrt.Int64("dbound")
+		verifrt.Assume(verifrt.And(b1 < b2, b1 > math.MinInt64))
+		x, y := verifrt.Int64("dsample"), verifrt.Int64("dsample")
+		h := root.Histogram("h", DurationBuckets{time.Duration(b1), time.Duration(b2)})
+		h.RecordDuration(time.Duration(x))
+		h.RecordDuration(time.Duration(y))
+		root.reportRegistry()
+		var total int64
+		for _, c := range rec.calls {
+			total += c.i
+			in := func(s int64) int64 {
+				return b2i(verifrt.And(verifrt.Or(int64(c.dlo) < s, c.dlo == time.Duration(math.MinInt64)), s <= int64(c.dhi)))
+			}
+			verifrt.Assert("c03.two-samples.bucket-holds-exactly-the-samples-inside-it", c.i == in(x)+in(y))
+		}
+		verifrt.Assert("c03.two-samples.both-delivered", total == 2)
+	}
+	verifrt.Reach("c03.two-samples.end")
+}
